@@ -58,3 +58,11 @@ claim('C03', 'literal-table extraction (constant folding; loop-built qudit table
       'C03.a/b eigen-component tables of 15 gate families (+ qutrit X/Z) are complete orthogonal projectors encoding the textbook matrix; C03.c 28 named constants are the '
       'documented family with documented arguments; C03.e Rx/Ry/Rz radians<->half-turn conversion and global shift, Sycamore/Willow angles',
       'closed forms depending on runtime parameters (FSim, PhasedX(Z), channels, QFT, diagonal, arithmetic, IonQ native gates), EigenGate._unitary_ consuming the tables')
+claim('C08', 'required-guard analysis of controlled() short-cuts, finite probe extraction of _has_stabilizer_effect_ against Clifford test on extracted eigen tables, self-reconstruction completeness',
+      'C08.a controlled() overrides pin every dropped matrix-determining field; C08.b a True of _has_stabilizer_effect_ implies the gate matrix is Clifford (probe exponents); '
+      'C08.c/c2 rebuilds pass every stored field, EigenGate subclasses with extra parameters override _with_exponent; C08.d exact/approximate equality fields agree',
+      'commutes / approx_eq / equal_up_to_global_phase numerics, trace-distance bounds, phase_by, ControlledGate matrices, equality canonicalisation of control values')
+claim('C04', 'finite-domain interpretation of in-place kernels against matrices from the extracted eigen tables (all basis inputs), return/give-up discipline, guard coherence of has-X vs X, wrapper delegation completeness',
+      'C04.b _apply_unitary_ of 12 table-defined families == their matrix for probe exponents/shifts on every basis state, give-up leaves target untouched; C04.b2 kernel return discipline; '
+      'C04.a has-X / X guard coherence; C04.d wrappers read the wrapped object in each protocol method and forward every parameter when delegating',
+      'decomposition/Kraus/mixture/superoperator agreement, act_on for each simulator, kernels of parameter-dependent gates and ControlledGate')
